@@ -16,6 +16,8 @@ pub mod path;
 mod sector;
 mod stream;
 mod stream_buffer;
+#[cfg(cfb_verif)]
+pub mod sync;
 mod timestamp;
 mod validate;
 mod version;
